@@ -33,8 +33,15 @@ func main() {
 	repo := flag.String("repo", "/repo", "moov-io/ach working tree")
 	out := flag.String("out", "", "output file (Effects.v)")
 	dump := flag.String("dump", "", "function name (RelString) whose SSA is dumped to stderr")
+	mode := flag.String("mode", "effects", "effects (Effects.v) | alias (EffectsAlias.v, see alias.go)")
 	flag.Parse()
-	src, err := run(*repo, *dump)
+	var src string
+	var err error
+	if *mode == "alias" {
+		src, err = runAlias(*repo, *dump)
+	} else {
+		src, err = run(*repo, *dump)
+	}
 	if err != nil {
 		fmt.Fprintln(os.Stderr, "translate-ssa:", err)
 		os.Exit(1)
